@@ -45,6 +45,9 @@ NATIVE = {
     'n_inforeq_alloc_layout': dict(crate='multiboot2-header', file='information_request.rs', props=['C16', 'C12', 'C07'],
         bound='InformationRequestHeaderTag::new with 0..=5 requests under a layout-recording global allocator (6 cases)',
         functions=['new_boxed (allocation layout passed to alloc vs. Box drop), header type with alignment 4']),
+    'n_hdr_builder_call_orders': dict(crate='multiboot2-header', file='builder.rs', props=['C12'],
+        bound='all 1024 subsets of the ten builder slots x three call orders (documented, reverse, rotated + one repeated setter), both architectures (3072 cases): magic, architecture, length, checksum, the supplied tag images in the documented order, one end tag; the real loader accepts the result',
+        functions=['multiboot2_header::Builder setters (frame: every other slot unchanged, in every call order) and build() on compiled code; keeps changes that make the Verus unit undecided replayable']),
     'n_find_header_window_limit': dict(crate='multiboot2-header', file='header.rs', props=['C13'],
         bound='buffer lengths {8190, 8192, 8196, 8200, 8216, 8448} x magic positions 8150..=8210 x header lengths {16, 24, 200, 400} (1464 cases), zero-filled otherwise',
         functions=['Multiboot2Header::find_header (8192-byte search window clause)']),
